@@ -159,6 +159,17 @@ def gen_history(rng, t, T):
     return hist
 
 
+def spec_interp(hist, x):
+    pts = sorted((Fraction(tt), Fraction(v)) for tt, v in hist)
+    if x <= pts[0][0]:
+        return pts[0][1]
+    if x >= pts[-1][0]:
+        return pts[-1][1]
+    for (x0, y0), (x1, y1) in zip(pts, pts[1:]):
+        if x0 <= x <= x1:
+            return y0 + (y1 - y0) * (x - x0) / (x1 - x0)
+
+
 def check_sensor(ctx, me, t, T, sl, hist, via):
     a, b, _ = slice(sl[0], sl[1]).indices(T)
     if b <= a:
@@ -191,6 +202,13 @@ def check_sensor(ctx, me, t, T, sl, hist, via):
         ctx.disagree(sig, case, pre[:4].tolist(), None,
                      'numeric sensor of the preselected data set differs from dumps a:b of the fully opened one',
                      spec=whole[a:b][:4].tolist())
+    # the property itself, computed here: piecewise-linear interpolation of the history (held constant outside it) at the
+    # DOCUMENTED timestamps of dumps a..b-1
+    want = [float(spec_interp(hist, w)) for w in me.spec_py(t, a, b - a)]
+    if pre.tolist() != want:
+        ctx.disagree('what=sensor_value;stream=sensor_pre;via=%s' % via, case, pre[:4].tolist(), None,
+                     'numeric sensor of the preselected data set is not the interpolation of its history at the documented '
+                     'timestamps of dumps a..b', spec=want[:4])
     matters = None
     if have(ctx):
         mo = ctx.model([[175, [1, me.wire_timing(t), a, b - a, T, [[me.q(tt), me.q(v)] for tt, v in hist], []]]])[0]
